@@ -33,7 +33,8 @@ def run_case(case: dict[str, Any]) -> dict[str, Any]:
     from frequenz.sdk.timeseries._resampling import Resampler, ResamplerConfig
 
     period = case["period"]
-    rec: dict[str, Any] = {"calls": [], "sinks": {}, "arrivals": {}, "restarts": [], "added": {}, "errors": []}
+    rec: dict[str, Any] = {"calls": [], "sinks": {}, "arrivals": {}, "restarts": [], "added": {}, "errors": [],
+                           "removed": {}, "faults": {}}
     lat = {(t, s): l for t, s, l in case.get("lat", [])}
     uid = [0]
 
@@ -125,21 +126,50 @@ def run_case(case: dict[str, Any]) -> dict[str, Any]:
                     s = Sample(ts, Quantity(math.nan))
                 else:
                     s = Sample(ts, Quantity(my))
-                await sender.send(s)
+                try:
+                    await sender.send(s)
+                except Exception:  # pylint: disable=broad-except
+                    return  # the harness closed this channel (scripted fault)
                 await asyncio.sleep(0)
                 await asyncio.sleep(0)
                 if val_kind in ("ok", "zero"):
                     rec["arrivals"][i].append({"ts": ts, "value": my, "t_sent": now})
 
         async def resample_forever() -> None:
-            # like ComponentMetricsResamplingActor: restart resample() whenever it ends
+            # like ComponentMetricsResamplingActor: restart resample() whenever it ends, after removing the
+            # series that failed (a closed source, a raising sink)
+            from frequenz.sdk.timeseries._resampling import ResamplingError
+
             while True:
                 try:
                     await r.resample()
                 except asyncio.CancelledError:
                     raise
+                except ResamplingError as e:
+                    removed = []
+                    for source in e.exceptions:
+                        idx = next((i for i, rx in rxs.items() if rx is source), None)
+                        removed.append([idx, r.remove_timeseries(source)])
+                        if idx is not None:
+                            rec["removed"][idx] = {"at": _now(), "why": type(e.exceptions[source]).__name__}
+                    rec["restarts"].append({"at": _now(), "error": f"ResamplingError removed={removed}"})
                 except Exception as e:  # pylint: disable=broad-except
                     rec["restarts"].append({"at": _now(), "error": f"{type(e).__name__}: {e}"[:200]})
+
+        async def fault(i: int, spec: dict[str, Any]) -> None:
+            """Scripted end of a series: the source channel closes, or the user removes the series."""
+            dt = t_created + spec["at"] - loop.time()
+            if dt > 0:
+                await asyncio.sleep(dt)
+            if i not in chans:
+                return
+            if spec["kind"] == "close":
+                await chans[i].close()
+                rec["faults"][i] = {"at": _now(), "kind": "close"}
+            else:
+                ok = r.remove_timeseries(rxs[i])
+                rec["faults"][i] = {"at": _now(), "kind": "remove", "ok": ok}
+                rec["removed"][i] = {"at": _now(), "why": "remove_timeseries"}
 
         prods = []
         series = case["series"]
@@ -148,6 +178,9 @@ def run_case(case: dict[str, Any]) -> dict[str, Any]:
                 add(i)
                 prods.append(asyncio.create_task(producer(i, s["events"])))
         task = asyncio.create_task(resample_forever())
+        for i, s in enumerate(series):
+            if s.get("end"):
+                prods.append(asyncio.create_task(fault(i, s["end"])))
         pending = sorted(((s["add_at"], i) for i, s in enumerate(series) if s["add_at"] > 0))
         for at, i in pending:
             dt = t_created + at - loop.time()
